@@ -70,7 +70,7 @@ def r12_1(ctx):
 COPY = "copy"      # per-stage mutable state: must be a fresh container / object
 ALIAS = "alias"    # may be shared, with the reason
 CLONE_TABLE = {
-    "states": COPY, "controls": COPY, "algebraics": COPY, "parameters": COPY, "variables": COPY,
+    "states": COPY, "qstates": COPY, "controls": COPY, "algebraics": COPY, "parameters": COPY, "variables": COPY,
     "_offsets": COPY, "_param_vals": COPY, "_state_der": COPY, "_scale_der": COPY, "_alg": COPY, "_state_next": COPY,
     "_constraints": COPY, "_initial": COPY, "_objective": COPY, "_method": COPY, "_placeholders": COPY,
     "_T": COPY, "_t0": COPY,
@@ -84,8 +84,7 @@ CLONE_TABLE = {
 CTOR_FRESH = {"_master", "parent", "_t", "_public_T", "_public_t0", "_tf", "_public_DT", "_public_DT_control", "_var_augmented"}
 # not carried over by clone(): recorded limitations, each fails loudly or is irrelevant for templates
 CLONE_EXEMPT = {
-    "qstates": "quadrature states only exist on the transcribed copy (created by integral placeholders in phase 1); clone() asserts it runs on an original",
-    "_signals": "B-spline signals of a template are not cloned: using one raises KeyError at transcription (loud)",
+    "_signals": "B-spline signals of a template are not cloned: a template that declares one is rejected by clone() (obligation 'clone handles the template's B-spline signals' below; D82)",
     "_inf_inert": "inf_inert symbols of a template are not cloned: an unsubstituted symbol fails loudly in Opti",
     "_inf_der": "inf_der symbols of a template are not cloned: an unsubstituted symbol fails loudly in Opti",
     "_stages": "a template with sub-stages is rejected by clone() (obligation 'clone handles the template's sub-stages' below)",
@@ -152,6 +151,11 @@ def r12_2(ctx):
                                              for n_ in walk_no_nested(f.node))
     ctx.check(handles_stages, "clone handles the template's sub-stages", detail="a template that owns sub-stages is cloned without them (half of the problem silently missing)",
               expected="clone the sub-stages recursively, or raise when self._stages is not empty", found="self._stages never read", fi=f)
+    # B-spline signals of a template (D82): der() on the clone consults self._signals - cloned, or the template is rejected, never left empty
+    handles_signals = "_signals" in ws or any(isinstance(n_, (ast.If, ast.Assert)) and "self._signals" in ast.unparse(n_.test) and (isinstance(n_, ast.Assert) or any(isinstance(x, ast.Raise) for x in n_.body))
+                                              for n_ in walk_no_nested(f.node))
+    ctx.check(handles_signals, "clone handles the template's B-spline signals", detail="der() on the clone treats the template's grid='bspline' symbols as constants in time (their derivative term silently vanishes)",
+              expected="clone the signal table, or raise when self._signals is not empty", found="self._signals never read", fi=f)
     # shifted operands (next/prev/offset) keep their own table of inner expressions: those need the clone's placeholders too
     offs = [w for w in ws.get("_offsets", [])]
     sub_off = any(is_call_to(x, "substitute") and [ast.unparse(a) for a in x.args[1:]] == ["subst_from", "subst_to"] and "_offsets" in ast.unparse(ctx.scope(f).stmt_of(x)) + " ".join(ast.unparse(l[1]) for l in ctx.scope(f).enclosing_loops(x))
@@ -180,7 +184,7 @@ def clone_scenario(ctx):
               (ph1, ("at_tf", Sym("expr", "x"), Sym("a1"), Sym("k1"))), (ph2, ("sum", Sym("expr", "e"), Sym("a2"), Sym("k2")))]
     cons = {"control": [(Sym("c", 0), Sym("m", 0), Sym("a", 0)), (Sym("c", 1), Sym("m", 1), Sym("a", 1))], "point": [(Sym("c", 2), Sym("m", 2), Sym("a", 2))], "integrator": []}
     guesses = [(Sym("g", 0), Sym("v", 0)), (Sym("g", 1), Sym("v", 1))]
-    me = fresh_obj("self", _is_original=True, _stages=[], T=phT, t0=pht0, t=pht, _placeholders={K(k): v for k, v in tpl_ph}, _constraints={g: list(v) for g, v in cons.items()},
+    me = fresh_obj("self", _is_original=True, _stages=[], _signals={}, qstates=[Sym("q", 0)], T=phT, t0=pht0, t=pht, _placeholders={K(k): v for k, v in tpl_ph}, _constraints={g: list(v) for g, v in cons.items()},
                    _objective=Sym("objective"), _initial={K(k): v for k, v in guesses}, _offsets={K(Sym("off", 0)): (Sym("oe", 0), 1)},
                    _method=fresh_obj("method", T=Sym("mT"), t0=Sym("mt0")), _T=Sym("_T"), _t0=Sym("_t0"))
     ret = fresh_obj("ret", T=Sym("retT"), t0=Sym("rett0"), t=Sym("rett"), _placeholders={}, _initial={}, _constraints={})
